@@ -157,16 +157,31 @@ def part_b(tier, seed, rng, wd, v, replay):
         steps = [{"k": "hb", "inst": x} for x in ("i1", "i2", "i3")]
         for k in range(rng.randint(4, 14)):
             inst = rng.choice(["i1", "i2", "i3"])
-            steps += [{"k": "hb", "inst": inst}, {"k": "acquire", "up": "um", "inst": inst, "tokens": rng.choice([-3, -1, -1, 0, 1, 2, 3, 5, limit - 1, limit, limit + 1]), "id": 0}]
+            steps += [{"k": "hb", "inst": inst}, {"k": "acquire", "up": "um", "inst": inst, "tokens": rng.choice([-3, -1, -1, 0, 1, 2, 3, 5, limit - 1, limit, limit + 1, limit + 1, 2147483647, 2147483646, 1073741824, -2147483647] if i % 2 else [-3, -1, -1, 0, 1, 2, 3, 5, limit - 1, limit, limit + 1]), "id": 0}]      # (every second history: amounts at the int32 extremes)
         mscs.append({"id": 5000 + i, "shards": 1, "servers": ["A"], "store": "local", "limit": limit,
                      "upstreams": [{"name": "um", "type": "mif", "strategy": "globalCount", "max": limit, "burst": 0}], "steps": steps})
+    # directed: a count is on record, then another instance reports an amount at the int32 extreme (the sum does not fit an int32)
+    X = 2147483647
+    for i, seq in enumerate([[("i1", 2), ("i2", X), ("i3", 3), ("i2", 1)], [("i1", 5), ("i2", X - 4), ("i3", 1)], [("i1", 1), ("i2", X), ("i2", X), ("i3", 5), ("i1", 0), ("i3", 6)],
+                             [("i1", 3), ("i2", 1073741824), ("i3", 1073741824), ("i1", 1073741824), ("i2", 1)],
+                             [("i1", 3), ("i3", 3), ("limit", 2), ("i2", X), ("i2", 1), ("i1", 0)], [("i1", 3), ("i3", 3), ("limit", 4), ("i2", X - 1), ("i3", 0), ("i1", 0), ("i1", 4)]]):
+        steps = [{"k": "hb", "inst": x} for x in ("i1", "i2", "i3")]
+        for inst, n in seq:
+            if inst == "limit":     # the configured limit is lowered below what is on record
+                steps += [{"k": "limit", "up": "um", "max": n, "burst": 0}, {"k": "sleep", "ms": 1500}]
+                continue
+            steps += [{"k": "hb", "inst": inst}, {"k": "acquire", "up": "um", "inst": inst, "tokens": n, "id": 0}]
+        mscs.append({"id": 5900 + i, "shards": 1, "servers": ["A"], "store": "local", "limit": 6,
+                     "upstreams": [{"name": "um", "type": "mif", "strategy": "globalCount", "max": 6, "burst": 0}], "steps": steps})
     mtr, mcr = vlib.run_test_driver(binp, mscs, wd, timeout=1200, name="mifseq")
     msc_by_id = {str(s["id"]): s for s in mscs}
     for sid_, tail in mcr.items():
         v.violation("mifseq-crash-%s" % sid_, {"scenario": msc_by_id[sid_], "what": "server process crashed", "stderr_tail": tail})
     mtl = []
     for sid_, t in mtr.items():
-        evs = [{"inst": e["inst"], "n": e["tokens"], "accept": bool(e.get("accept")), "lim": e.get("limit", 0), "err": ("err" in e) or bool(e.get("rerr"))} for e in t["events"] if e["k"] == "acquire"]
+        big = lambda x: max(-1000000, min(1000000, x))      # (TLC's integers are 32-bit: amounts beyond a million are judged as a million - far above every limit)
+        evs = [{"k": "acq", "inst": e["inst"], "n": big(e["tokens"]), "accept": bool(e.get("accept")), "lim": big(e.get("limit", 0)), "err": ("err" in e) or bool(e.get("rerr"))} if e["k"] == "acquire"
+               else {"k": "limit", "inst": "", "n": e["max"], "accept": False, "lim": 0, "err": False} for e in t["events"] if e["k"] in ("acquire", "limit")]
         mtl.append({"id": int(sid_), "limit": msc_by_id[sid_]["limit"], "events": evs})
     mp = os.path.join(wd, "mifseq.ndjson")
     vlib.write_ndjson(mp, mtl)
